@@ -299,6 +299,13 @@ def match_known(prop, case_lines, known):
         if k.get("status") != "open" or k.get("property") != prop:
             continue
         sig = k.get("signature", {})
+        if sig.get("kind") == "metamorphic":
+            ok, is_d9, _ = meta_judge(case_lines)
+            if (not ok) and is_d9:
+                return k
+            continue
+        if not sig.get("all_regex") and not sig.get("cfg_regex"):
+            continue
         if all(re.search(rx, text, re.M) for rx in sig.get("all_regex", [])) and \
            all(re.search(rx, case_lines[0]) for rx in sig.get("cfg_regex", [])):
             return k
@@ -306,8 +313,115 @@ def match_known(prop, case_lines, known):
 
 
 # ---------------------------------------------------------------------------------------
+# metamorphic pairs (C15): a history and the same history with extra contains_key / iter calls
+
+XOPS = ("xhas", "xiter", "xsnap")
+
+
+def is_extra(line):
+    return op_of(line).split(" ")[0] in XOPS
+
+
+def meta_variant(case_ops, seed):
+    """Inserts `xsnap; xhas k` / `xsnap; xiter` pairs at pseudo-random positions."""
+    x = (seed * 2654435761 + 12345) & 0xFFFFFFFF
+    out = [case_ops[0]]
+    for l in case_ops[1:]:
+        x = (x * 1103515245 + 12345) & 0x7FFFFFFF
+        if x % 100 < 22:
+            out.append("xsnap")
+            out.append("xiter" if (x >> 8) % 4 == 0 else f"xhas {(x >> 12) % 13}")
+        out.append(l)
+    return out
+
+
+def meta_compare(variant_trace, base_trace):
+    v = [l for l in variant_trace if not is_extra(l)]
+    if len(v) != len(base_trace):
+        return (0, "<length differs>", "")
+    for i, (a, b) in enumerate(zip(v, base_trace)):
+        if a != b:
+            return (i, a, b)
+    return None
+
+
+def d9_signature(variant_trace):
+    """An extra contains_key issued on the unsync cache while weighted_size > max_capacity."""
+    cfgl = variant_trace[0]
+    m = re.search(r"kind=(\w+).* cap=(\w+)", cfgl)
+    if not m or m.group(1) != "unsync" or m.group(2) in ("none", "-"):
+        return False
+    cap = int(m.group(2))
+    for i, l in enumerate(variant_trace[:-1]):
+        if op_of(l) == "xsnap" and op_of(variant_trace[i + 1]).startswith("xhas"):
+            w = re.search(r" ws=(\d+)", l)
+            if w and int(w.group(1)) > cap:
+                return True
+    return False
+
+
+def meta_judge(lines):
+    """(ok, is_known_D9, detail) for one case that may contain x-ops."""
+    variant = "\n".join(op_of(l) for l in lines) + "\n"
+    base = "\n".join(op_of(l) for l in lines if not is_extra(l)) + "\n"
+    iv, e1 = run_impl(variant, timeout=20)
+    ib, e2 = run_impl(base, timeout=20)
+    if iv is None or ib is None:
+        return False, False, "hang"
+    cv, cb = split_cases(iv), split_cases(ib)
+    if not cv or not cb:
+        return False, False, "no output"
+    d = meta_compare(cv[0], cb[0])
+    if d is None:
+        return True, False, ""
+    return False, d9_signature(cv[0]), f"with extras: {d[1][:160]} | without: {d[2][:160]}"
+
+
+def meta_worker(args):
+    (prop, kind, seed, ncases, length, profile, mode, oracle_id) = args
+    real = kind.split("-", 1)[1]
+    base_ops = gen_ops(real, seed, ncases, length, profile, blackbox=True)
+    bases = split_cases(base_ops)
+    variants = [meta_variant(c, seed + i) for i, c in enumerate(bases)]
+    vtext = "\n".join("\n".join(v) for v in variants) + "\n"
+    iv, e1 = run_impl(vtext)
+    ib, e2 = run_impl(base_ops)
+    mv, e3 = run_model(vtext)
+    res = {"kind": kind, "seed": seed, "profile": profile, "ncases": ncases, "ierr": e1 or e2,
+           "merr": e3, "disagree": [], "oracle_fail": [], "nontrivial": 0, "ops": 0, "hist": {},
+           "sample": None, "known": []}
+    if iv is None or ib is None or mv is None:
+        res["fatal"] = e1 or e2 or e3
+        res["ops_text"] = vtext
+        return res
+    cv, cb, cm = split_cases(iv), split_cases(ib), split_cases(mv)
+    for idx, (v, b) in enumerate(zip(cv, cb)):
+        res["ops"] += len(v) - 1
+        extras = sum(1 for l in v if is_extra(l))
+        if extras and re.search(r"get \d+ -> some", "\n".join(v)):
+            res["nontrivial"] += 1
+        for l in v[1:]:
+            w = op_of(l).split(" ")[0]
+            res["hist"][w] = res["hist"].get(w, 0) + 1
+        d = meta_compare(v, b)
+        if d is not None:
+            if d9_signature(v):
+                res["known"].append("D9")
+            else:
+                res["oracle_fail"].append({"case": idx, "verdict": "metamorphic", "ops": variants[idx]})
+        m = cm[idx] if idx < len(cm) else []
+        dm = first_diff(v, m, "full")
+        if dm is not None:
+            res["disagree"].append({"case": idx, "at": dm[0], "impl": dm[1][:400], "model": dm[2][:400],
+                                    "ops": variants[idx]})
+        if res["sample"] is None and extras:
+            res["sample"] = [op_of(x) for x in v[:40]]
+    return res
+
 
 def worker(args):
+    if args[1].startswith("meta-"):
+        return meta_worker(args)
     (prop, kind, seed, ncases, length, profile, mode, oracle_id) = args
     ops = gen_ops(kind, seed, ncases, length, profile)
     impl, ierr = run_impl(ops)
@@ -368,6 +482,13 @@ def worker(args):
 def judge_case(prop, ops_lines, mode, oracle_id):
     """Runs one case; returns (oracle_ok, agrees, impl_trace, model_trace)."""
     ops = "\n".join(op_of(l) for l in ops_lines) + "\n"
+    if any(is_extra(l) for l in ops_lines[1:]):
+        ok, known, detail = meta_judge(ops_lines)
+        impl, _ = run_impl(ops, timeout=20)
+        model, _ = run_model(ops, timeout=60)
+        ic, mc = split_cases(impl or ""), split_cases(model or "")
+        agrees = len(ic) == len(mc) and all(first_diff(a, b, mode) is None for a, b in zip(ic, mc))
+        return (ok or known), agrees, (impl or "") + "\n# " + detail, model or ""
     impl, ierr = run_impl(ops, timeout=8)
     model, merr = run_model(ops, timeout=60)
     if impl is None:
@@ -494,6 +615,12 @@ def main():
                 oracle_fails.append(f)
             if r.get("fatal"):
                 fatal.append(r)
+            for kf in r.get("known", []):
+                for k0 in known:
+                    if k0.get("id") == kf and k0.get("status") == "open" and k0.get("property") == prop:
+                        line = f"KNOWN-FINDING: property={prop} {k0['id']} {k0['description']}"
+                        if line not in known_lines:
+                            known_lines.append(line)
 
     # ---- source audit
     oka, aproblems = source_audit(cfg.get("audit_kinds", []))
